@@ -600,6 +600,10 @@ class Engine:
             return z3.BoolVal(False)
         if isinstance(a, Z) and isinstance(b, Z) and a.kind == b.kind and a.kind in self.datatypes:
             return a.t == b.t
+        for x, y in ((a, b), (b, a)):
+            # a module-level object() sentinel is never identical to a str/int/tuple/dataclass value
+            if isinstance(x, Opaque) and x.tag.startswith("sentinel:") and (isinstance(y, (Tup, Ref, Cls, Fn, Exc)) or (isinstance(y, Z) and y.kind not in ("u", "typeof"))):
+                return z3.BoolVal(False)
         if isinstance(a, Z) and a.kind == "typeof" or isinstance(b, Z) and b.kind == "typeof":
             ty, c = (a, b) if isinstance(a, Z) and a.kind == "typeof" else (b, a)
             return self.type_is(st, ty.t, c)
@@ -639,6 +643,11 @@ class Engine:
         raise Unsupported(f"type({v}) is {c}")
 
     def equal(self, st, a, b):
+        h = self.method_models.get("__eq__")
+        if h is not None:
+            r = h(self, st, a, b)
+            if r is not None:
+                return r
         if isinstance(a, Z) and isinstance(b, Z):
             if a.kind == b.kind and a.kind not in ("u", "typeof"):
                 return a.t == b.t
